@@ -15,6 +15,20 @@ NA = {
 PENDING = "check under construction in this session (see DESIGN.md 10 build order)"
 
 CHECKS = {
+    "C09": dict(
+        category="other",
+        text="Structural clauses of tree consistency decided from the MIR of every instantiation of new/push/pop/update/get/try_sample: "
+             "(1) no path from a mutable reborrow of *self to an Err return, and on abstract cases a decided Err leaves the abstract tree unchanged; "
+             "(2) every `.unwrap()`ed storage addition is preceded by the same addition on a clone of the root total whose failure returns Err(Overflow); "
+             "(3) weight predicate and Overflow verdicts on interval cases; (4) parent map floor((i-1)/2) at all five writers, child maps 2i+1/2i+2 at both "
+             "readers (symbolic index terms by value numbering), mutually inverse, walks write at the stepped index; (6) try_sample's InsufficientNonZero clause. "
+             "These hold for every history because they are properties of the code, not of a run.",
+        design_ref="DESIGN.md 5/C09",
+        note="NOT decided: that after an arbitrary history the tree equals a fresh build (needs the inductive subtotal invariant over histories), "
+             "`get` values, in-range-index panic freedom beyond the cases analysed. Trusted: rand's Weight::checked_add_assign contract, Vec contracts.",
+        technique="CFG reachability (mutation-before-error), call ordering, symbolic index-term extraction (value numbering) and abstract interpretation of the weight predicate on MIR",
+        engine="rdx+E4+E2",
+    ),
     "C07": dict(
         category="proof",
         text="A units-of-measure typing derivation over the monomorphic MIR: constructor arguments carry the units of the property statement "
